@@ -80,13 +80,51 @@ def run_translators(names, log):
     return res
 
 
-def coq_makefile():
-    mk = os.path.join(COQ, "Makefile")
+def coq_project():
+    """_CoqProject is derived from the directory contents, so adding a .v file needs no shared edit."""
+    files = []
+    for d in ("model", "gen", "proofs", "props"):
+        dd = os.path.join(COQ, d)
+        if os.path.isdir(dd):
+            files += sorted(f"{d}/{f}" for f in os.listdir(dd) if f.endswith(".v"))
+    text = "-Q . MambaModel\n" + "\n".join(files) + "\n"
     proj = os.path.join(COQ, "_CoqProject")
-    if not os.path.exists(mk) or os.path.getmtime(mk) < os.path.getmtime(proj):
+    if not os.path.exists(proj) or open(proj).read() != text:
+        open(proj, "w").write(text)
+        return True
+    return False
+
+
+def coq_makefile():
+    changed = coq_project()
+    mk = os.path.join(COQ, "Makefile")
+    if changed or not os.path.exists(mk):
         rc, out = sh(["coq_makefile", "-f", "_CoqProject", "-o", "Makefile"], cwd=COQ)
         if rc != 0:
             raise BuildError("coq_makefile failed: " + out)
+
+
+def coq_eval(imports, exprs, timeout=600):
+    """Evaluate closed Coq terms with vm_compute inside coqc; returns the printed normal forms (text).
+    `imports` e.g. ["model.Diag"]; each expr must have a type whose printing fits on Coq's output."""
+    body = "From Coq Require Import List String ZArith Ascii.\nImport ListNotations.\n"
+    body += "".join(f"From MambaModel Require Import {i}.\n" for i in imports)
+    body += "Set Printing Width 1000000.\nSet Printing Depth 1000000.\n"
+    for k, e in enumerate(exprs):
+        body += f'Eval vm_compute in ("@@{k}"%string, {e}).\n'
+    d = tempfile.mkdtemp(prefix="ev_", dir=CACHE)
+    try:
+        p = os.path.join(d, "cases.v")
+        open(p, "w").write(body)
+        rc, out = sh(["coqc", "-noglob", "-Q", COQ, "MambaModel", p], timeout=timeout)
+    finally:
+        shutil.rmtree(d, ignore_errors=True)
+    if rc != 0:
+        raise BuildError("coq_eval failed:\n" + out[-2000:])
+    res = {}
+    for m in re.finditer(r'= \("@@(\d+)"%?(?:string)?, (.*?)\)\s*\n\s*: ', out, re.S):
+        res[int(m.group(1))] = m.group(2).strip()
+    return [res.get(k) for k in range(len(exprs))]
 
 
 def coq_make(targets, log, timeout=1500):
